@@ -29,12 +29,15 @@ struct query {
     char name[256];
     struct stub_answer ans;
     int released;
+    int sent;			/* the query has left: the library reported the resolver's socket writable */
     ares_addrinfo_callback cb;
     void *arg;
 };
 
 struct ares_channeldata {
     int efd;			/* stands for the resolver's socket; -1 while no query is in flight */
+    int wfd;			/* stands for a resolver socket with a query still to be written (as with DNS over TCP):
+				   reported as "watch for writability" until ares_process_fd() is given it */
     struct query q[MAX_QUERIES];
     struct timeval tv;
 };
@@ -111,7 +114,7 @@ int ares_init_options(ares_channel *channelptr, struct ares_options *options, in
     struct ares_channeldata *c = calloc(1, sizeof(*c));
     if (c == NULL)
 	return ARES_ENOMEM;
-    c->efd = -1;
+    c->efd = c->wfd = -1;
     for (int i = 0; i < MAX_CHANNELS; i++)
 	if (channels[i] == NULL) {
 	    channels[i] = c;
@@ -159,6 +162,8 @@ void ares_getaddrinfo(ares_channel channel, const char *node, const char *servic
 	    q->arg = arg;
 	    if (channel->efd < 0)
 		channel->efd = eventfd(0, EFD_NONBLOCK | EFD_CLOEXEC);
+	    if (channel->wfd < 0)
+		channel->wfd = eventfd(0, EFD_NONBLOCK | EFD_CLOEXEC);	/* counter 0: always writable, never readable */
 	    return;
 	}
     callback(arg, ARES_ENOMEM, 0, NULL);
@@ -203,7 +208,15 @@ int ares_getsock(ares_channel channel, ares_socket_t *socks, int numsocks)
     if (numsocks < 1 || in_flight(channel) == 0 || channel->efd < 0)
 	return 0;
     socks[0] = channel->efd;
-    return ARES_GETSOCK_READABLE(~0, 0);	/* bit 0: socket 0 is to be watched for reading */
+    int mask = ARES_GETSOCK_READABLE(~0, 0);	/* bit 0: socket 0 is to be watched for reading */
+    int unsent = 0;
+    for (int i = 0; i < MAX_QUERIES; i++)
+	unsent += channel->q[i].used && !channel->q[i].sent;
+    if (unsent && numsocks >= 2 && channel->wfd >= 0) {
+	socks[1] = channel->wfd;
+	mask |= ARES_GETSOCK_WRITABLE(~0, 1);	/* bit 16 + 1: socket 1 is to be watched for writing */
+    }
+    return mask;
 }
 
 struct timeval *ares_timeout(ares_channel channel, struct timeval *maxtv, struct timeval *tv)
@@ -216,7 +229,20 @@ struct timeval *ares_timeout(ares_channel channel, struct timeval *maxtv, struct
 
 void ares_process_fd(ares_channel channel, ares_socket_t read_fd, ares_socket_t write_fd)
 {
-    (void)write_fd;
+    if (write_fd != ARES_SOCKET_BAD && write_fd == channel->wfd) {
+	/* the queries leave; an answer released meanwhile is announced (again) on the reading socket */
+	for (int i = 0; i < MAX_QUERIES; i++) {
+	    struct query *q = &channel->q[i];
+	    if (q->used && !q->sent) {
+		q->sent = 1;
+		if (q->released) {
+		    uint64_t one = 1;
+		    if (write(channel->efd, &one, sizeof(one)) < 0)
+			abort();
+		}
+	    }
+	}
+    }
     if (read_fd == ARES_SOCKET_BAD || read_fd != channel->efd)
 	return;
     uint64_t v;
@@ -224,7 +250,7 @@ void ares_process_fd(ares_channel channel, ares_socket_t read_fd, ares_socket_t 
 	return;			/* nothing arrived */
     for (int i = 0; i < MAX_QUERIES; i++) {
 	struct query *q = &channel->q[i];
-	if (q->used && q->released) {
+	if (q->used && q->released && q->sent) {
 	    struct query copy = *q;
 	    q->used = 0;
 	    deliver(copy.name, &copy.ans, copy.cb, copy.arg);
@@ -233,6 +259,9 @@ void ares_process_fd(ares_channel channel, ares_socket_t read_fd, ares_socket_t 
     if (in_flight(channel) == 0 && channel->efd >= 0) {
 	close(channel->efd);
 	channel->efd = -1;
+	if (channel->wfd >= 0)
+	    close(channel->wfd);
+	channel->wfd = -1;
     }
 }
 
@@ -258,6 +287,8 @@ void ares_destroy(ares_channel channel)
     }
     if (channel->efd >= 0)
 	close(channel->efd);
+    if (channel->wfd >= 0)
+	close(channel->wfd);
     for (int i = 0; i < MAX_CHANNELS; i++)
 	if (channels[i] == channel)
 	    channels[i] = NULL;
